@@ -2,6 +2,7 @@
    `janet_loop` would, and writes the same event log as harness/C06/chanrun.c.  CORE LEAN ONLY.
    Every state change goes through `Ev.step`, so the theorems over arbitrary action lists cover every run made here. -/
 import JanetModel.Ev.Model
+import JanetModel.Ev.Refine
 namespace JanetModel.Ev
 
 inductive Op where
@@ -52,10 +53,11 @@ def showTimer (w : World) (t : Timer) : String :=
   s!"{t.fiber}.{t.sched}@{t.when}" ++ (match t.curr with | some s => if w.scopes s then "+" else "-" | none => "")
     ++ (if t.isError then "!" else "")
 
-def showState (w : World) (nch nfib : Nat) : String :=
+def showState (w : World) (nch nfib : Nat) (rings : Nat → RingQ Nat) : String :=
   let chans := (List.range nch).map fun c =>
     let ch := w.chans c
-    s!"|c{c} i={commaSep (ch.items.map toString)} r={commaSep (ch.readPending.map showPending)} w={commaSep (ch.writePending.map showPending)} X={if ch.closed then 1 else 0} n={chanCount w c}/{if chanFull w c then 1 else 0}/{chanCapacity w c}"
+    let g := rings c
+    s!"|c{c} i={commaSep (ch.items.map toString)} r={commaSep (ch.readPending.map showPending)} w={commaSep (ch.writePending.map showPending)} X={if ch.closed then 1 else 0} n={chanCount w c}/{if chanFull w c then 1 else 0}/{chanCapacity w c} g={g.head}/{g.tail}/{g.cap}"
   String.join chans ++ s!"|q={commaSep (w.runq.map showTask)}|t={commaSep (w.timers.map (showTimer w))}|s={commaSep ((List.range nfib).map fun f => toString (w.fibers f).sched)}"
 
 def showStatus (fb : Fiber) (err : Val) : String :=
@@ -97,13 +99,19 @@ structure Exec where
   acts : List Action := []
   /-- janet_panic outside any fiber (supervisor event into a closed channel, source without the guard): the thread ended -/
   aborted : Bool := false
+  /-- JANET_MAX_Q_CAPACITY -/
+  maxQ : Nat := 0x7FFFFFF
+  /-- `channel->items` of every channel as a JanetQueue RING (`Ev/Queue.lean`): obtained by replaying the item-queue
+      calls of every step (`stepOps`, `Ev/Refine.lean`) with `janet_q_push` / `janet_q_pop`; the log prints
+      head / tail / capacity next to the item list, the harness prints the real channel's -/
+  rings : Nat → RingQ Nat := fun _ => RingQ.init 0
 
 def Exec.nch (e : Exec) : Nat := e.prog.limits.length
 def Exec.nfib (e : Exec) : Nat := e.prog.fibers.length
 
 def Exec.doStep (e : Exec) (a : Action) : Exec × Outcome :=
   let (w, o) := step e.cfg e.w a
-  ({ e with w := w, acts := a :: e.acts }, o)
+  ({ e with w := w, acts := a :: e.acts, rings := applyRings e.maxQ e.rings (stepOps e.cfg e.w a) }, o)
 
 def Exec.say (e : Exec) (s : String) : Exec := { e with log := e.log ++ s }
 
@@ -144,7 +152,7 @@ def Exec.runFiber (e : Exec) (f : Nat) : Nat → Exec
     match ops[i]? with
     | none => ((e.doStep (.finish false)).1).supervise f false
     | some op =>
-      let e := e.say s!";B {f} {i}{showState e.w e.nch e.nfib}"
+      let e := e.say s!";B {f} {i}{showState e.w e.nch e.nfib e.rings}"
       let e := { e with pc := setNat e.pc f (i + 1) }
       match op with
       | .deadline ms n =>
@@ -200,7 +208,7 @@ def Exec.loop (e : Exec) (first : Bool) : Nat → Exec × String
   | fuel + 1 =>
     if loopDone e.w then (e, "ok")
     else
-      let e := e.say (";L" ++ (if first then showState e.w 0 1 else showState e.w e.nch e.nfib))
+      let e := e.say (";L" ++ (if first then showState e.w 0 1 e.rings else showState e.w e.nch e.nfib e.rings))
       let e := (e.doStep .timers).1
       let e := e.runPhase 4096
       if e.aborted then (e, "top-level-signal") else
@@ -209,18 +217,18 @@ def Exec.loop (e : Exec) (first : Bool) : Nat → Exec × String
       if e.w.runq.isEmpty ∧ e.w.timers.isEmpty ∧ e.w.listeners > 0 then (e, "idle-forever")
       else e.loop false fuel
 
-def Prog.start (cfg : Cfg) (p : Prog) : Exec :=
+def Prog.start (cfg : Cfg) (p : Prog) (maxQ : Nat := 0x7FFFFFF) : Exec :=
   let w := { World.init (fun c => p.limits.getD c 0) with clock := p.clockStart, clockStep := p.clockStep }
   -- the harness creates the main fiber and calls janet_schedule(main, nil) from outside the loop
   let w := schedule w 0 .nil
-  { w := w, cfg := cfg, prog := p, rng := p.rng }
+  { w := w, cfg := cfg, prog := p, rng := p.rng, maxQ := maxQ }
 
-def Prog.exec (cfg : Cfg) (p : Prog) : Exec × String := (p.start cfg).loop true 5000
+def Prog.exec (cfg : Cfg) (p : Prog) (maxQ : Nat := 0x7FFFFFF) : Exec × String := (p.start cfg maxQ).loop true 5000
 
 /-- verdict and log, as printed by the harness -/
-def Prog.render (cfg : Cfg) (p : Prog) : String :=
-  let (e, verdict) := p.exec cfg
+def Prog.render (cfg : Cfg) (p : Prog) (maxQ : Nat := 0x7FFFFFF) : String :=
+  let (e, verdict) := p.exec cfg maxQ
   let st := commaSep ((List.range e.nfib).map fun f => showStatus (e.w.fibers f) (e.errs f))
-  s!"{verdict} {e.log};F{showState e.w e.nch e.nfib}|st={st}|lc={e.w.listeners}"
+  s!"{verdict} {e.log};F{showState e.w e.nch e.nfib e.rings}|st={st}|lc={e.w.listeners}"
 
 end JanetModel.Ev
